@@ -39,7 +39,8 @@ def plan(tier):
             "min_nontrivial": 100,
             "min_counters": {"body_calls_checked": 2000, "concrete_calls": 100, "symbolic_constructions": 300,
                              "reevaluations_with_changed_truth": 100, "bystander_queries": 300,
-                             "negated_queries_with_answers": 100, "signature_family_calls": 100, "receiver_variable_calls": 30}}
+                             "negated_queries_with_answers": 100, "signature_family_calls": 100, "receiver_variable_calls": 30,
+                             "calls_selected_and_used_as_condition": 100}}
 
 
 LOG = []
@@ -406,6 +407,23 @@ def run_sig(spec, ctx):
                             f"first {LOG[0] if LOG else None!r}")
         if sorted(rows) != sorted(want_true):
             problems.append(f"with the last variable bound by an earlier condition: rows {len(rows)} != {len(want_true)}")
+    plain_slots = [s_ for s_ in var_slots if s_[0] != "recv"]
+    if not problems and plain_slots:
+        # the call object stands in two positions of one query: it is a conjunct of the condition and its value is
+        # selected as well
+        LOG.clear()
+        try:
+            cond = call(*pos, **kw)
+            from krrood.entity_query_language.entity import and_
+            always = variables[plain_slots[-1]].a >= 0
+            rows = [tuple(id(r[v]) for v in sel) + (bool(r[cond]),) for r in an(set_of(sel + [cond], and_(cond, always))).evaluate()]
+        except Exception as e:
+            return {"status": "fail", "kind": "evaluation-exception:" + type(e).__name__, "key": None,
+                    "detail": f"{shape} selected and used as the condition: {type(e).__name__}: {e}"[:300]}
+        C["calls_selected_and_used_as_condition"] += 1
+        if sorted(rows) != sorted(t + (True,) for t in want_true):
+            problems.append(f"the call selected AND used as the condition: {len(rows)} rows ({sum(1 for r in rows if not r[-1])} of them with "
+                            f"a false value) != {len(want_true)} bindings for which the concrete call is true")
     if problems:
         return {"status": "fail", "kind": "symbolic-evaluation", "key": None, "detail": shape + ": " + "; ".join(problems)}
     return {"status": "ok", "nontrivial": True, "shape": shape, "obs": {"calls": len(want_calls), "rows": len(want_true)}}
